@@ -302,7 +302,7 @@ func genForFormat(t *rapid.T) (D, string) {
 		return DFin(genSign(t), bi(int64(ir(t, 0, 99999, "small"))), ir(t, -3, 15, "n")), spec
 	case 3, 4, 5:
 		// a tie / near-tie / carry chain exactly at the position the spec selects
-		var keep int // digits kept
+		var keep int            // digits kept
 		x := ir(t, -8, 30, "x") // exponent of the leading digit
 		switch sp.Verb {
 		case 'e', 'E':
